@@ -200,14 +200,14 @@ func init() {
 	checks["C06"] = &CheckDef{
 		Pkgs: []string{"./component/sniffing"},
 		Harness: []string{"component/sniffing:Verif_C06_tls_arbitrary", "component/sniffing:Verif_C06_tls_hello", "component/sniffing:Verif_C06_http",
-			"component/sniffing:Verif_C06_tls_chunked", "component/sniffing:Verif_C06_passthrough", "component/sniffing:Verif_C06_quic_frames", "component/sniffing:Verif_C06_quic_arbitrary", "component/sniffing:Verif_C06_quic_datagram_intact"},
+			"component/sniffing:Verif_C06_tls_chunked", "component/sniffing:Verif_C06_passthrough", "component/sniffing:Verif_C06_quic_frames", "component/sniffing:Verif_C06_quic_arbitrary", "component/sniffing:Verif_C06_quic_datagram_intact", "component/sniffing:Verif_C06_quic_outcome"},
 		MaxIter: 2000,
 		Level:   "other",
 		LevelText: "The real sniffers are executed symbolically: extractSniFromTls / findSniExtension over a ClientHello of arbitrary bytes in a buffer without spare capacity (no panic, no out-of-bounds read); NewPacketSniffer/NewConnSniffer + SniffTcp over a well-formed hello assembled from symbolic fields (extension order, session id size, an entry of another name type first, trailing dot, mixed case, arbitrary random / suites / other extension) - the name reported is exactly the one carried and the bytes handed on are the client's; the same hello cut into up to three reads after its record header through the real stream path (readStreamOnceWithReadDeadline, pool Buffer.ReadFromOnce) against a model socket that records every deadline - name found, each read armed with the one construction-time deadline and disarmed afterwards, relay (TakeRelayPrefix then Read, as control/tcp_copy_gather_linux.go does) gets the stream byte for byte; an arbitrary first segment with the rest arriving in time or only after the sniffing timeout - no name invented, no deadline left armed, no stale sniffing error replayed to the relay, stream intact; SniffHttp over request heads with Host at any header position / key case / spacing; and the QUIC Initial CRYPTO path below decryption (ExtractCryptoFrameOffset, ReassembleCryptos, LinearLocator, then the same ClientHello walk) for a hello cut into three frames in any order with PING/PADDING, an overlapping resend and one or two datagrams, and for two frames with arbitrary contents at overlapping/abutting/gapped offsets (no panic); and SniffUdp on an arbitrary QUIC Initial datagram with the in-place header unprotection modelled (arbitrary mask, decryption succeeding or failing): the datagram later replayed to the relay (Sniffer.Data) is byte for byte the client's.",
 		LevelNote: "Trusted: go/ssa, executor, z3, the hello / request assembled in the harness as the reference for 'the name that is carried', and the model socket (a read beyond what has arrived reports a timeout, as a socket whose deadline passes does). QUIC header unprotection and AEAD (AES, HKDF) are not encoded: the QUIC harnesses start from the decrypted payload. Two genuine defects were found with this check and repaired (see known_findings.json): a slice-bounds panic in findSniExtension, and the sniffing timeout being replayed to the relay as a read error.",
 		Technique: techniqueText,
 		Explanation: "Bounded symbolic execution of the TLS / HTTP / QUIC-CRYPTO sniffers and the stream sniffer's read, deadline and replay path.",
-		Bounds: map[string]string{"quick": "arbitrary ClientHello: 49-51 symbolic bytes (type/version steered); well-formed hello: names 1-3 bytes over {a,B,-,1}, session id 0/32, 3 extension orders, 1 suite; chunked: one hello shape, cut points {5,6,44,len-1,len} x2; passthrough: 6 symbolic bytes (first byte TLS / G / P / 0), tail in time or late; HTTP: 4 methods x 3 Host positions x 4 key cases x 3 values; QUIC frames: 3 cut points, 6 orders, resend, 1-2 datagrams; QUIC arbitrary: frame A 41 symbolic bytes at offset 0, frame B 4/8 bytes at offset 0/39/41; QUIC datagram: 35 bytes, 2-byte DCID, symbolic header-protection mask", "thorough": "names <=4, session id 0/1/32, 1-2 suites, passthrough 6/9 free bytes, 6 QUIC cut points, QUIC arbitrary offsets A{0,1,38} x B{0,39,41,42,45,63}"},
+		Bounds: map[string]string{"quick": "quic_outcome: SniffQuic over the CRYPTO frames of a hello with / without server_name, stream complete / lacking its last 7 bytes (packet stage replaced); arbitrary ClientHello: 49-51 symbolic bytes (type/version steered); well-formed hello: names 1-3 bytes over {a,B,-,1}, session id 0/32, 3 extension orders, 1 suite; chunked: one hello shape, cut points {5,6,44,len-1,len} x2; passthrough: 6 symbolic bytes (first byte TLS / G / P / 0), tail in time or late; HTTP: 4 methods x 3 Host positions x 4 key cases x 3 values; QUIC frames: 3 cut points, 6 orders, resend, 1-2 datagrams; QUIC arbitrary: frame A 41 symbolic bytes at offset 0, frame B 4/8 bytes at offset 0/39/41; QUIC datagram: 35 bytes, 2-byte DCID, symbolic header-protection mask", "thorough": "names <=4, session id 0/1/32, 1-2 suites, passthrough 6/9 free bytes, 6 QUIC cut points, QUIC arbitrary offsets A{0,1,38} x B{0,39,41,42,45,63}"},
 		Outside: []string{"QUIC header protection / AEAD decryption (crypto not encoded)", "hellos longer than the bounds (the longest modelled one is 4.3 KiB, in tls_chunked), more than 3 extensions", "the async read path used only for readers without deadlines", "UDP datagram replay order in control/udp.go", "HTTP heads split over reads (the statement only claims one read)"},
 		Assumptions: []string{"model socket c06Conn: chunks arrive as given; a read beyond them returns a net.Error with Timeout()=true; SetReadDeadline always succeeds", "time.Now abstracted to an arbitrary instant"},
 		QuickBudget: 10 * time.Minute, ThoroughBudget: 20 * time.Minute,
